@@ -16,6 +16,7 @@ EXPLANATION = (
 EXPLANATION += " Also decided: no raw fixed-width arithmetic on a length, count or offset in these constructors can wrap."
 EXPLANATION += " Also decided: every byte of the fixed headers (Event 0..144, Filter 0..32, Tags 0..4) is written on every success path of every constructor and parser."
 EXPLANATION += ' Also decided: every public function of the crate returning an owned packed value is held to the same rules as the listed constructors; a length test that compares the same quantities as an open slice bound with a smaller constant is a violation.'
+EXPLANATION += ' Also decided: the tag offset table filled by the reading pass stays inside what the counting pass sized, and Ok needs read == counted.'
 ASSUMPTIONS = ["A1: usize size arithmetic does not overflow"]
 
 ENTRY = [
